@@ -13,8 +13,8 @@ import (
 
 // Pat is a pattern node.
 type Pat struct {
-	Op   string `json:"op"`             // lit | class | dot | cat | alt | group | star | plus | opt | anchored
-	Lit  string `json:"lit,omitempty"`  // lit: one character; class: the member characters
+	Op   string `json:"op"`             // lit | class | nclass | esc | dot | cat | alt | group | star | plus | opt | anchored
+	Lit  string `json:"lit,omitempty"`  // lit: one character; class, nclass: the member characters; esc: one of dDwWsS
 	Subs []*Pat `json:"subs,omitempty"` // children
 }
 
@@ -32,6 +32,10 @@ func (p *Pat) String() string {
 		return quote(p.Lit[0])
 	case "class":
 		return "[" + p.Lit + "]"
+	case "nclass":
+		return "[^" + p.Lit + "]"
+	case "esc":
+		return "\\" + p.Lit
 	case "dot":
 		return "."
 	case "cat":
@@ -69,11 +73,29 @@ func (p *Pat) String() string {
 
 func atomString(p *Pat) string {
 	switch p.Op {
-	case "lit", "class", "dot", "group":
+	case "lit", "class", "nclass", "esc", "dot", "group":
 		return p.String()
 	}
 
 	return "(" + p.String() + ")"
+}
+
+// escMatches gives the Perl character classes their RE2 (ASCII) meaning.
+func escMatches(e byte, c byte) bool {
+	var in bool
+	switch e {
+	case 'd', 'D':
+		in = c >= '0' && c <= '9'
+	case 'w', 'W':
+		in = (c >= '0' && c <= '9') || (c >= 'a' && c <= 'z') || (c >= 'A' && c <= 'Z') || c == '_'
+	case 's', 'S':
+		in = c == ' ' || c == '\t' || c == '\n' || c == '\f' || c == '\r'
+	}
+	if e >= 'A' && e <= 'Z' {
+		return !in
+	}
+
+	return in
 }
 
 func lower(c byte) byte {
@@ -115,6 +137,22 @@ func (p *Pat) ends(s string, i int, fold bool, memo map[*Pat]map[int][]bool) []b
 					out[i+1] = true
 				}
 			}
+		}
+	case "nclass":
+		if i < len(s) {
+			in := false
+			for j := 0; j < len(p.Lit); j++ {
+				if eq(p.Lit[j], s[i]) {
+					in = true
+				}
+			}
+			if !in {
+				out[i+1] = true
+			}
+		}
+	case "esc":
+		if i < len(s) && escMatches(p.Lit[0], s[i]) {
+			out[i+1] = true
 		}
 	case "dot":
 		if i < len(s) && s[i] != '\n' {
@@ -210,6 +248,18 @@ func (p *Pat) Sample(t *rapid.T) string {
 		return p.Lit
 	case "class":
 		return string(p.Lit[rapid.IntRange(0, len(p.Lit)-1).Draw(t, "cls")])
+	case "nclass", "esc":
+		var ok []byte
+		for _, c := range Alphabet {
+			if (&Pat{Op: p.Op, Lit: p.Lit}).Matches(string(c)) {
+				ok = append(ok, c)
+			}
+		}
+		if len(ok) == 0 {
+			return "_"
+		}
+
+		return string(ok[rapid.IntRange(0, len(ok)-1).Draw(t, "ncls")])
 	case "dot":
 		return string(Alphabet[rapid.IntRange(0, len(Alphabet)-1).Draw(t, "dot")])
 	case "cat":
@@ -277,6 +327,19 @@ func GenPat(t *rapid.T, depth int, names []string) *Pat {
 	case k < 34:
 		a := Alphabet[rapid.IntRange(0, len(Alphabet)-2).Draw(t, "c1")]
 		b := Alphabet[rapid.IntRange(0, len(Alphabet)-2).Draw(t, "c2")]
+		if a != b && lower(a) == lower(b) {
+			// [Ww] is not generated: Go 1.23's regexp/syntax reads it as the literal W with a
+			// fold flag and, when factoring an alternation such as W|Wa|[Ww], merges it into the
+			// case-sensitive prefix W, so "w" stops matching (fixed in later Go releases; shown by
+			// TestPatAgainstRegexp).  That is a standard-library defect, not Dirk's.
+			b = 'a'
+		}
+		switch rapid.IntRange(0, 3).Draw(t, "class_kind") {
+		case 0:
+			return &Pat{Op: "nclass", Lit: string([]byte{a, b})}
+		case 1:
+			return &Pat{Op: "esc", Lit: rapid.SampledFrom([]string{"d", "D", "w", "W", "s", "S"}).Draw(t, "esc")}
+		}
 
 		return &Pat{Op: "class", Lit: string([]byte{a, b})}
 	case k < 40:
